@@ -1,6 +1,7 @@
 package uconkit
 
 import (
+	"fmt"
 	"math/big"
 	"sync"
 
@@ -33,6 +34,10 @@ type FakeChain struct {
 	// real set's root)
 	DefaultRoot *common.Hash
 	RootOf      map[uint64]common.Hash
+	// VersionOf, if set, gives the CurrVersion recorded in synthetic header n, and VersionForRound
+	// then follows the chain as the real one does: the parameters in force for round r are those of the
+	// version recorded in header max(r-8, 0) (params.Versions must hold them)
+	VersionOf func(n uint64) params.YouVersion
 	// Pinned headers are returned for their number even above Head (a block the node already
 	// holds as canonical at the height that is being verified)
 	Pinned  map[uint64]*types.Header
@@ -76,6 +81,9 @@ func (c *FakeChain) header(n uint64) *types.Header {
 	if c.HeaderVersion != 0 {
 		ver = c.HeaderVersion
 	}
+	if c.VersionOf != nil {
+		ver = c.VersionOf(n)
+	}
 	h := SeedHeader(n, c.SeedOf(n), root, c.YP.CertValThreshold, ver)
 	h.Time = 1000 + n
 	c.headers[n] = h
@@ -96,9 +104,37 @@ func (c *FakeChain) Pin(n uint64, h *types.Header) {
 	c.Pinned[n] = h
 }
 
-func (c *FakeChain) VersionForRound(round uint64) (*params.YouParams, error) { return c.YP, nil }
+const protocolRoundBack = 8 // core.protocolRoundBack
+
+func (c *FakeChain) VersionForRound(round uint64) (*params.YouParams, error) {
+	return c.VersionForRoundWithParents(round, nil)
+}
+
 func (c *FakeChain) VersionForRoundWithParents(round uint64, parents []*types.Header) (*params.YouParams, error) {
-	return c.YP, nil
+	if c.VersionOf == nil {
+		return c.YP, nil
+	}
+	var lb uint64
+	if round > protocolRoundBack {
+		lb = round - protocolRoundBack
+	}
+	var h *types.Header
+	for _, p := range parents {
+		if p.Number.Uint64() == lb {
+			h = p
+		}
+	}
+	if h == nil {
+		h = c.header(lb)
+	}
+	if h == nil {
+		return nil, fmt.Errorf("fakechain: no header %d for the version look-back of round %d", lb, round)
+	}
+	yp, ok := params.Versions[h.CurrVersion]
+	if !ok {
+		return nil, fmt.Errorf("fakechain: version %d unknown", h.CurrVersion)
+	}
+	return &yp, nil
 }
 func (c *FakeChain) CurrentHeader() *types.Header                  { return c.header(c.Head) }
 func (c *FakeChain) GetHeaderByNumber(number uint64) *types.Header { return c.header(number) }
